@@ -8,7 +8,7 @@ print("| Prop | Model-level modules (TLC) | Generators | Quick: TLC states / eve
 print("|---|---|---|---|---|")
 for pid in sorted(CHECKS):
     c = CHECKS[pid]
-    mcs = ", ".join(sorted({m.get("tag", m["module"]) for m in c.get("mc", [])})) or "-"
+    mcs = ", ".join(sorted({m.get("tag", m.get("module", m.get("apalache"))) for m in c.get("mc", [])})) or "-"
     gens = ", ".join(g["module"] + ("*" if "thorough" in g.get("tiers", ()) and "quick" not in g.get("tiers", ("quick",)) else "") for g in c["gen"])
     try:
         e = json.load(open(os.path.join(V, "evidence", pid + ".json")))
